@@ -181,9 +181,20 @@ class Gen:
                 et = self.pick([INT, STR])
                 cont = self.pick([tlist(et), tdict(et, INT), ttuple([et, et])] + ([STR] if et == STR else []))
                 return ("bin", self.pick(["in", "not in"]), self.expr(scope, et, depth - 1), self.expr(scope, cont, depth - 1))
-            if k < 0.9:
+            if k < 0.88:
+                # double negation of a short-circuit expression whose left operand is not a bool (prefer a variable on the
+                # left and a syntactically boolean right operand, the shape an optimiser is tempted to simplify)
+                lt = self.pick([INT, STR, tlist(INT), NONE, tdict(STR, INT)])
+                vs = self.vars_of(scope, lt)
+                left = ("var", self.pick(vs)) if vs and self.chance(0.7) else self.expr(scope, lt, depth - 1)
+                ct = self.pick([INT, STR])
+                right = ("bin", self.pick(CMP), self.expr(scope, ct, depth - 1), self.expr(scope, ct, depth - 1)) if self.chance(0.6) \
+                    else self.expr(scope, BOOL, depth - 1)
+                self.note("notnot_shortcircuit")
+                return ("un", "not", ("un", "not", (self.pick(["and", "or"]), left, right)))
+            if k < 0.93:
                 return ("call", ("var", self.pick(["any", "all"])), [self.expr(scope, tlist(self.pick([BOOL, INT])), depth - 1)], [], None, None)
-            if k < 0.95:
+            if k < 0.97:
                 return ("call", ("var", "bool"), [self.expr(scope, self.pick([INT, STR, tlist(INT)]), depth - 1)], [], None, None)
             return self.lit(BOOL, 0)
         if t == STR:
@@ -211,7 +222,23 @@ class Gen:
             if k < 0.6:
                 return self.list_comp(scope, et, depth - 1)
             if k < 0.68 and et in (INT, STR):
-                return ("call", ("var", "sorted"), [self.expr(scope, t, depth - 1)], [], None, None)
+                named = []
+                if self.chance(0.4):
+                    named.append(("reverse", ("bool", self.chance(0.7))))
+                if self.chance(0.35):
+                    named.append(("key", ("var", "abs") if et == INT else ("var", "len")))
+                elif et == INT and self.chance(0.2):
+                    kx = self.fresh("c")
+                    named.append(("key", ("lambda", [("p", kx, None)], ("bin", "%", ("var", kx), ("int", 3)))))
+                self.note("sorted_kw" if named else "sorted")
+                return ("call", ("var", "sorted"), [self.expr(scope, t, depth - 1)], named, None, None)
+            if k < 0.68 and et[0] == "tuple" and et[1] and et[1][0] in (INT, STR):
+                kx = self.fresh("c")
+                named = [("key", ("lambda", [("p", kx, None)], ("index", ("var", kx), ("int", 0))))]
+                if self.chance(0.5):
+                    named.append(("reverse", ("bool", True)))
+                self.note("sorted_kw")
+                return ("call", ("var", "sorted"), [self.expr(scope, t, depth - 1)], named, None, None)
             if k < 0.74:
                 return ("call", ("var", "reversed"), [self.expr(scope, t, depth - 1)], [], None, None)
             if k < 0.8 and et == INT:
